@@ -22,7 +22,11 @@ CONSTANTS Codecs,     \* subset of {"h264","h265","mpeg4","av1"}
           MaxAUs,     \* units per sequence
           MaxNALs,    \* tokens per unit
           MaxNALs265, \* tokens per unit for h265 (its alphabet is the largest)
-          EmitLen     \* sequences of this length are printed as cases
+          EmitLen,    \* sequences of this length are printed as cases
+          DevH265UpdaterComparesStored
+                      \* named deviation, FALSE = the current code.  TRUE = the H.265 updater as it was before the
+                      \* fix of finding C22-F1: each in-band VPS/SPS/PPS is compared with the value stored in the
+                      \* format instead of the value chosen so far in the unit (kept to re-check old trees)
 
 Alphabet(c) ==
     CASE c = "h264"  -> {"SPS_a", "SPS_b", "PPS_a", "PPS_b", "AUD", "IDR", "nonIDR", "SEI"}
@@ -52,26 +56,26 @@ PSNals(c, ps) == LET ks == Kinds(c) IN [i \in 1..Len(ks) |-> ByValue(ParamTok(ks
 AllKnown(c, ps) == \A i \in 1..Len(Kinds(c)) : ps[Kinds(c)[i]] # "none"
 
 \* ------------------------------------------------------------------ layer 1: H.264 / H.265 as coded
-RECURSIVE UpdH264(_, _, _)
-UpdH264(ps, au, p) ==          \* formatUpdaterH264: compares with the running value
+RECURSIVE UpdRunning(_, _, _)
+UpdRunning(ps, au, p) ==       \* formatUpdaterH264 / formatUpdaterH265: compare with the running value
     IF p > Len(au) THEN ps
-    ELSE IF au[p] \in {"SPS_a", "SPS_b", "PPS_a", "PPS_b"} /\ Val(au[p]) # ps[Kind(au[p])]
-         THEN UpdH264([ps EXCEPT ![Kind(au[p])] = Val(au[p])], au, p + 1)
-         ELSE UpdH264(ps, au, p + 1)
+    ELSE IF au[p] \in ParamTokens /\ Val(au[p]) # ps[Kind(au[p])]
+         THEN UpdRunning([ps EXCEPT ![Kind(au[p])] = Val(au[p])], au, p + 1)
+         ELSE UpdRunning(ps, au, p + 1)
 
-RECURSIVE UpdH265(_, _, _, _)
-UpdH265(fmt, ps, au, p) ==     \* formatUpdaterH265: compares with the value stored in the FORMAT (fmt)
+RECURSIVE UpdStored(_, _, _, _)
+UpdStored(fmt, ps, au, p) ==   \* deviation DevH265UpdaterComparesStored: compare with the value stored in the FORMAT (fmt)
     IF p > Len(au) THEN ps
     ELSE IF au[p] \in ParamTokens /\ Val(au[p]) # fmt[Kind(au[p])]
-         THEN UpdH265(fmt, [ps EXCEPT ![Kind(au[p])] = Val(au[p])], au, p + 1)
-         ELSE UpdH265(fmt, ps, au, p + 1)
+         THEN UpdStored(fmt, [ps EXCEPT ![Kind(au[p])] = Val(au[p])], au, p + 1)
+         ELSE UpdStored(fmt, ps, au, p + 1)
 
 Filtered(c, au, k) ==          \* unitRemuxerH26x: parameter sets and access unit delimiters are dropped
     SelectSeq(Insts(au, k), LAMBDA i : i.t \notin ParamTokens /\ i.t # "AUD")
 HasKey(c, au) == \E p \in 1..Len(au) : au[p] \in KeyTokens(c)
 
 L1H26x(c, ps, au, k) ==
-    LET ps2 == IF c = "h264" THEN UpdH264(ps, au, 1) ELSE UpdH265(ps, ps, au, 1)
+    LET ps2 == IF c = "h265" /\ DevH265UpdaterComparesStored THEN UpdStored(ps, ps, au, 1) ELSE UpdRunning(ps, au, 1)
         body == Filtered(c, au, k)
         out == IF HasKey(c, au) /\ AllKnown(c, ps2) THEN PSNals(c, ps2) \o body ELSE body
     IN [s |-> ps2, out |-> out, desc |-> ps2]
